@@ -92,7 +92,7 @@ class SigCollector(Collector):
 
 class BatchModel(Model):
     def __init__(self, **params):
-        super().__init__()
+        super().__init__(seed=1)       # never OS entropy inside the harness: every run must replay exactly
         self.params = dict(params)
         self.sig = sig_of(params)
         self.stop_at = stop_at_of(self.sig)
